@@ -86,6 +86,7 @@ Ltac py_guards Hp :=
   repeat match type of Hp with
          | (if ?c then _ else _) = Value _ _ => let E := fresh "P" in destruct c eqn:E; try discriminate Hp
          | (match ?c with Some _ => _ | None => _ end) = Value _ _ => let E := fresh "P" in destruct c eqn:E; try discriminate Hp
+         | (match ?c with Coded => _ | Fixed => _ end) = Value _ _ => destruct c; try discriminate Hp
          end.
 
 Ltac some_guards :=
@@ -176,11 +177,17 @@ Proof.
 Qed.
 
 (** ** * : numeric_std converts an integer factor to the width of the vector operand first *)
-Definition mul_guard (m : mode) (a b : operand) : bool :=
+Definition mul_guard (mr m : mode) (a b : operand) : bool :=
   match a, b with
   | (TU w, _), ((TInt | TPy), n) => match m with Coded => int_fits_u w n | Fixed => true end
   | (TS w, _), ((TInt | TPy), n) => match m with Coded => int_fits_s w n | Fixed => true end
-  | ((TInt | TPy), n), (TU w, vb) => match m with Coded => int_fits_u w n && (n =? vb) | Fixed => true end
+  | ((TInt | TPy), n), (TU w, vb) =>
+      match mr, m with
+      | Fixed, Fixed => true
+      | Fixed, Coded => int_fits_u w n
+      | Coded, Fixed => n =? vb
+      | Coded, Coded => int_fits_u w n && (n =? vb)
+      end
   | ((TInt | TPy), n), (TS w, _) => match m with Coded => int_fits_s w n | Fixed => true end
   | _, _ => true
   end.
@@ -191,13 +198,14 @@ Proof. unfold int_fits_u, to_u. intros H. apply wrap_small. lia. Qed.
 Lemma fits_s w n : (0 < w)%N -> int_fits_s w n = true -> to_s w n = n.
 Proof. unfold int_fits_s, to_s. intros Hw H. apply sval_wrap; [assumption|lia]. Qed.
 
-Theorem mul_agrees_partial m a b t v x :
-  wf a -> wf b -> mul_guard m a b = true ->
-  py_mul m a b = Value t v -> rt_bin PMul a b = Ok x -> x = to_v (t, v).
+Theorem mul_agrees_partial mr m a b t v x :
+  wf a -> wf b -> mul_guard mr m a b = true ->
+  py_mul mr m a b = Value t v -> rt_bin PMul a b = Ok x -> x = to_v (t, v).
 Proof.
   destruct a as [ta va], b as [tb vb]; destruct ta, tb; names; intros Ha Hb G Hp Hr; try discriminate.
-  all: cbn [mul_guard] in G; destruct m; py_guards Hp; unfold mk_int in Hr; rt_guards Hr.
-  all: try (apply andb_true_iff in G; destruct G as [G G2]; apply Z.eqb_eq in G2; subst).
+  all: cbn [mul_guard] in G; destruct mr, m; py_guards Hp; unfold mk_int in Hr; rt_guards Hr.
+  all: try match type of G with (int_fits_u _ _ && (_ =? _)) = true => apply andb_true_iff in G; destruct G as [G G2] end.
+  all: repeat match goal with H : (?n =? ?v) = true |- _ => apply Z.eqb_eq in H; subst end.
   all: try use_mk Hp; try (inv Hp); inv Hr; unfold mkU, mkS, to_v; rewrite ?sv_in by assumption.
   all: repeat match goal with
               | G : int_fits_u ?w ?n = true |- _ => rewrite (fits_u w n G); clear G
@@ -208,14 +216,14 @@ Proof.
 Qed.
 
 Theorem mul_rmul_refuted : exists a b t v x,
-  wf a /\ wf b /\ py_mul Coded a b = Value t v /\ rt_bin PMul a b = Ok x /\ x <> to_v (t, v).
+  wf a /\ wf b /\ py_mul Coded Coded a b = Value t v /\ rt_bin PMul a b = Ok x /\ x <> to_v (t, v).
 Proof.
   exists (TPy, 3), (TU 4, 2), (TU 8), 4, (VV KUns 8 6).
   repeat split; try (vm_compute; intuition congruence); try (vm_compute; lia).
 Qed.
 
 Theorem mul_int_width_refuted : exists a b t v x,
-  wf a /\ wf b /\ py_mul Coded a b = Value t v /\ rt_bin PMul a b = Ok x /\ x <> to_v (t, v).
+  wf a /\ wf b /\ py_bin current PMul a b = Value t v /\ rt_bin PMul a b = Ok x /\ x <> to_v (t, v).
 Proof.
   exists (TU 4, 5), (TPy, 17), (TU 8), 85, (VV KUns 8 5).
   repeat split; try (vm_compute; intuition congruence); try (vm_compute; lia).
@@ -355,16 +363,38 @@ Proof.
       cbv iota; lia].
 Qed.
 
-(** ** and / or / xor on Unsigned, BitVector and Bit (Signed: covered by the correspondence run) *)
-Definition not_signed (a : operand) : bool := match fst a with TS _ => false | _ => true end.
-
-Theorem logic_agrees_partial op a b t v x :
-  wf a -> wf b -> not_signed a = true ->
-  py_logic op a b = Value t v -> logic op (to_v a) (to_v b) = Ok x -> x = to_v (t, v).
+(** ** and / or / xor *)
+Lemma log2_lt w a : 0 < Z.of_N w -> 0 <= a < pow2 w -> Z.log2 a < Z.of_N w.
 Proof.
-  destruct a as [ta va], b as [tb vb]; destruct ta, tb; names; intros Ha Hb G Hp Hr; try discriminate.
+  intros Hw [H0 H1]. destruct (Z.eq_dec a 0) as [->|Hn]; [cbn; lia|].
+  apply Z.log2_lt_pow2; [lia|exact H1].
+Qed.
+
+Lemma logic_range op w a b : 0 <= a < pow2 w -> 0 <= b < pow2 w -> 0 <= logic_z op a b < pow2 w.
+Proof.
+  intros Ha Hb. pose proof (pow2_pos w) as Hp.
+  assert (H0 : 0 <= logic_z op a b).
+  { unfold logic_z. destruct op; try (apply Z.lxor_nonneg; lia); [apply Z.land_nonneg; lia|apply Z.lor_nonneg; lia]. }
+  split; [exact H0|].
+  destruct (N.eq_dec w 0) as [->|Hw].
+  - change (pow2 0) with 1 in *. assert (a = 0) by lia. assert (b = 0) by lia. subst. destruct op; cbn; lia.
+  - destruct (Z.eq_dec (logic_z op a b) 0) as [->|Hn]; [lia|].
+    apply Z.log2_lt_pow2; [lia|].
+    assert (La := log2_lt w a ltac:(lia) Ha). assert (Lb := log2_lt w b ltac:(lia) Hb).
+    assert (Hm : Z.log2 (logic_z op a b) <= Z.max (Z.log2 a) (Z.log2 b)).
+    { unfold logic_z. destruct op;
+        try (apply Z.log2_lxor; lia);
+        [ etransitivity; [apply Z.log2_land; lia|lia] | rewrite Z.log2_lor by lia; lia ]. }
+    lia.
+Qed.
+
+Theorem logic_agrees op a b t v x :
+  wf a -> wf b -> py_logic op a b = Value t v -> logic op (to_v a) (to_v b) = Ok x -> x = to_v (t, v).
+Proof.
+  destruct a as [ta va], b as [tb vb]; destruct ta, tb; names; intros Ha Hb Hp Hr; try discriminate.
   all: cbn [oty_eqb] in Hp; py_guards Hp; rt_guards Hr; inv Hp; inv Hr; unfold to_v; try reflexivity.
-  destruct Ha as [-> | ->], Hb as [-> | ->]; destruct op; reflexivity.
+  - destruct Ha as [-> | ->], Hb as [-> | ->]; destruct op; reflexivity.
+  - apply N.eqb_eq in P; subst. f_equal. symmetry. apply wrap_sval. apply logic_range; apply wrap_range.
 Qed.
 
 (** ** unary minus, abs, invert *)
@@ -404,8 +434,8 @@ Proof.
 Qed.
 
 (** ** the documented result type (for the operators whose result is a vector or an Integer) *)
-Theorem type_as_documented m op a b t v :
-  py_bin m op a b = Value t v ->
+Theorem type_as_documented c op a b t v :
+  py_bin c op a b = Value t v ->
   match spec_ty op (fst a) (fst b) with
   | Some t' => t = t' \/ (t = TInt /\ t' = TPy) \/ (t = TPy /\ t' = TInt) \/ (op = PAnd \/ op = POr \/ op = PXor)
   | None => op = PAnd \/ op = POr \/ op = PXor \/ op = PEq \/ op = PNe
@@ -414,7 +444,6 @@ Proof.
   destruct a as [ta va], b as [tb vb]; destruct op.
   all: destruct ta, tb; cbn [py_bin py_add py_sub py_rsub py_mul py_truncdiv py_floordiv py_mod py_rem py_shl py_shr
                             py_logic py_concat py_cmp spec_ty fst snd shift_count u_add_int]; intros Hp; try discriminate.
-  all: try (destruct m).
   all: unfold s_add_int, u_truncdiv, s_truncdiv, u_rem, s_rem, u_mod, s_mod, int_div, frem, fdiv in Hp; py_guards Hp.
   all: try (first [ apply mkUv_val in Hp; destruct Hp as (-> & _) | apply mkSv_val in Hp; destruct Hp as (-> & _) ]).
   all: try (inv Hp).
@@ -446,9 +475,9 @@ Ltac not_noimpl Hn :=
 Definition signed_count (op : bop) (b : operand) : bool :=
   match op, fst b with (PShl | PShr), TS _ => true | _, _ => false end.
 
-Theorem fold_total_partial m op a b x :
+Theorem fold_total_partial c op a b x :
   arith_like op = true -> cohdl_operands a b = true -> signed_count op b = false ->
-  rt_bin op a b = Ok x -> py_bin m op a b <> NoImpl.
+  rt_bin op a b = Ok x -> py_bin c op a b <> NoImpl.
 Proof.
   destruct a as [ta va], b as [tb vb]; destruct op; intros Ho; try discriminate Ho; clear Ho.
   all: destruct ta, tb; intros Hc; try discriminate Hc; clear Hc; intros Hs; try discriminate Hs; clear Hs.
@@ -459,27 +488,67 @@ Proof.
 Qed.
 
 (** the guard is needed: std_logic values are ordered in VHDL, Bit defines no ordering *)
-Theorem fold_total_refuted : exists op a b x, rt_bin op a b = Ok x /\ py_bin Coded op a b = NoImpl.
+Theorem fold_total_refuted : exists op a b x, rt_bin op a b = Ok x /\ py_bin current op a b = NoImpl.
 Proof. exists PLt, (TBit, 0), (TBit, 1), (VB true). split; reflexivity. Qed.
+
+(** ** the CURRENT tree ([current]): sub, truncdiv, //, rem at full strength; no result is left unpredicted *)
+Theorem sub_agrees a b t v x :
+  wf a -> wf b -> py_bin current PSub a b = Value t v -> rt_bin PSub a b = Ok x -> x = to_v (t, v).
+Proof. exact (sub_agrees_fixed a b t v x). Qed.
+
+Theorem truncdiv_agrees a b t v x :
+  wf a -> wf b -> py_bin current PTruncDiv a b = Value t v -> rt_bin PTruncDiv a b = Ok x -> x = to_v (t, v).
+Proof. exact (truncdiv_agrees_partial Fixed a b t v x). Qed.
+
+Theorem floordiv_agrees_current a b t v x :
+  wf a -> wf b -> py_bin current PFloorDiv a b = Value t v -> rt_bin PFloorDiv a b = Ok x -> x = to_v (t, v).
+Proof. exact (floordiv_agrees Fixed a b t v x). Qed.
+
+Theorem rem_agrees a b t v x :
+  wf a -> wf b -> py_bin current PRem a b = Value t v -> rt_bin PRem a b = Ok x -> x = to_v (t, v).
+Proof. exact (rem_agrees_partial Fixed a b t v x). Qed.
+
+Theorem mul_agrees_current_partial a b t v x :
+  wf a -> wf b -> mul_guard Fixed Coded a b = true ->
+  py_bin current PMul a b = Value t v -> rt_bin PMul a b = Ok x -> x = to_v (t, v).
+Proof. exact (mul_agrees_partial Fixed Coded a b t v x). Qed.
+
+Ltac not_res Hn :=
+  cbv beta iota delta [mkUv mkSv s_add_int u_truncdiv s_truncdiv u_rem s_rem u_mod s_mod int_div frem fdiv] in Hn;
+  repeat match type of Hn with
+         | (if ?c then _ else _) = _ => destruct c
+         end; discriminate Hn.
+
+Theorem current_never_inexact op a b : py_bin current op a b <> Inexact.
+Proof.
+  destruct a as [ta va], b as [tb vb]; destruct op; destruct ta, tb.
+  all: cbn [py_bin py_add py_sub py_rsub py_mul py_truncdiv py_floordiv py_mod py_rem py_shl py_shr py_logic py_concat
+            py_cmp u_add_int shift_count fst snd current k_rmul k_sub k_div k_mulrange is_eqop]; intro Hn; not_res Hn.
+Qed.
+
+Theorem un_never_inexact op a : py_un op a <> Inexact.
+Proof.
+  destruct a as [ta va]; destruct op; try destruct t; destruct ta; cbn [py_un py_ctor is_num]; intro Hn; not_res Hn.
+Qed.
 
 (** ** non-vacuity: the hypotheses of every implication above are satisfiable (with both sides defined) *)
 Ltac witness := repeat split; try (vm_compute; intuition congruence); try (vm_compute; lia); try reflexivity.
 
 Example add_nonvacuous : exists a b t v x, wf a /\ wf b /\ py_add a b = Value t v /\ rt_bin PAdd a b = Ok x.
 Proof. exists (TS 4, -3), (TPy, 7), (TS 4), 4, (VV KSgn 4 4). witness. Qed.
-Example sub_nonvacuous : exists a b t v x,
+Example sub_round0_example : exists a b t v x,
   wf a /\ wf b /\ sub_guard a b = true /\ py_sub Coded a b = Value t v /\ rt_bin PSub a b = Ok x.
 Proof. exists (TU 2, 1), (TU 4, 3), (TU 4), 14, (VV KUns 4 14). witness. Qed.
-Example sub_fixed_nonvacuous : exists a b t v x, wf a /\ wf b /\ py_sub Fixed a b = Value t v /\ rt_bin PSub a b = Ok x.
+Example sub_nonvacuous : exists a b t v x, wf a /\ wf b /\ py_bin current PSub a b = Value t v /\ rt_bin PSub a b = Ok x.
 Proof. exists (TU 4, 5), (TU 2, 1), (TU 4), 4, (VV KUns 4 4). witness. Qed.
 Example mul_nonvacuous : exists a b t v x,
-  wf a /\ wf b /\ mul_guard Coded a b = true /\ py_mul Coded a b = Value t v /\ rt_bin PMul a b = Ok x.
+  wf a /\ wf b /\ mul_guard Fixed Coded a b = true /\ py_bin current PMul a b = Value t v /\ rt_bin PMul a b = Ok x.
 Proof. exists (TS 3, -4), (TPy, 3), (TS 6), (-12), (VV KSgn 6 52). witness. Qed.
-Example mul_fixed_nonvacuous : exists a b t v x,
-  wf a /\ wf b /\ mul_guard Fixed a b = true /\ py_mul Fixed a b = Value t v /\ rt_bin PMul a b = Ok x.
+Example mul_patched_example : exists a b t v x,
+  wf a /\ wf b /\ mul_guard Fixed Fixed a b = true /\ py_mul Fixed Fixed a b = Value t v /\ rt_bin PMul a b = Ok x.
 Proof. exists (TPy, 3), (TU 4, 2), (TU 8), 6, (VV KUns 8 6). witness. Qed.
 Example truncdiv_nonvacuous : exists a b t v x,
-  wf a /\ wf b /\ py_truncdiv Coded a b = Value t v /\ rt_bin PTruncDiv a b = Ok x.
+  wf a /\ wf b /\ py_bin current PTruncDiv a b = Value t v /\ rt_bin PTruncDiv a b = Ok x.
 Proof. exists (TS 4, -7), (TPy, 2), (TS 4), (-3), (VV KSgn 4 13). witness. Qed.
 Example truncdiv_inexact_reachable : exists a b, wf a /\ wf b /\ py_truncdiv Coded a b = Inexact
   /\ rt_bin PTruncDiv a b = Ok (VV KSgn 64 (2 ^ 62 + 1)).
@@ -488,11 +557,11 @@ Example rem_inexact_reachable : exists a b, wf a /\ wf b /\ py_rem Coded a b = I
   /\ rt_bin PRem a b = Ok (VV KUns 64 1).
 Proof. exists (TU 64, 2 ^ 63 + 3), (TPy, 2). witness. Qed.
 Example floordiv_nonvacuous : exists a b t v x,
-  wf a /\ wf b /\ py_floordiv Coded a b = Value t v /\ rt_bin PFloorDiv a b = Ok x.
+  wf a /\ wf b /\ py_bin current PFloorDiv a b = Value t v /\ rt_bin PFloorDiv a b = Ok x.
 Proof. exists (TU 4, 13), (TU 2, 3), (TU 4), 4, (VV KUns 4 4). witness. Qed.
 Example mod_nonvacuous : exists a b t v x, wf a /\ wf b /\ py_mod a b = Value t v /\ rt_bin PMod a b = Ok x.
 Proof. exists (TS 4, -7), (TS 3, 3), (TS 3), 2, (VV KSgn 3 2). witness. Qed.
-Example rem_nonvacuous : exists a b t v x, wf a /\ wf b /\ py_rem Coded a b = Value t v /\ rt_bin PRem a b = Ok x.
+Example rem_nonvacuous : exists a b t v x, wf a /\ wf b /\ py_bin current PRem a b = Value t v /\ rt_bin PRem a b = Ok x.
 Proof. exists (TS 4, -7), (TS 3, 3), (TS 3), (-1), (VV KSgn 3 7). witness. Qed.
 Example shl_nonvacuous : exists a b t v x, wf a /\ wf b /\ py_shl a b = Value t v /\ rt_bin PShl a b = Ok x.
 Proof. exists (TS 4, 3), (TU 2, 2), (TS 4), (-4), (VV KSgn 4 12). witness. Qed.
@@ -504,8 +573,8 @@ Proof. exists (TS 4, -1), (TPy, 0), TBool, 1, (VB true). witness. Qed.
 Example concat_nonvacuous : exists a b t v x, wf a /\ wf b /\ py_concat a b = Value t v /\ rt_bin PConcat a b = Ok x.
 Proof. exists (TU 2, 1), (TS 2, -1), (TBV 4), 7, (VV KSlv 4 7). witness. Qed.
 Example logic_nonvacuous : exists a b t v x,
-  wf a /\ wf b /\ not_signed a = true /\ py_logic OXor a b = Value t v /\ logic OXor (to_v a) (to_v b) = Ok x.
-Proof. exists (TU 4, 5), (TU 4, 3), (TU 4), 6, (VV KUns 4 6). witness. Qed.
+  wf a /\ wf b /\ py_logic OXor a b = Value t v /\ logic OXor (to_v a) (to_v b) = Ok x.
+Proof. exists (TS 3, -1), (TS 3, 2), (TS 3), (-3), (VV KSgn 3 5). witness. Qed.
 Example neg_nonvacuous : exists a t v x, wf a /\ py_un MNeg a = Value t v /\ rt_un MNeg a = Ok x.
 Proof. exists (TS 4, -8), (TS 4), (-8), (VV KSgn 4 8). witness. Qed.
 Example abs_nonvacuous : exists a t v x, wf a /\ py_un MAbs a = Value t v /\ rt_un MAbs a = Ok x.
